@@ -1,7 +1,7 @@
 #!/bin/bash
 # try_patch.sh <patch file> <props,comma>  -- run checks against a scratch copy of /repo with the patch applied
 set -u
-pf=$1; props=$2
+pf=$(readlink -f $1); props=$2
 d=$(mktemp -d /tmp/tp_XXXX)
 rsync -a --exclude target --exclude .git /repo/ $d/ && (cd $d && patch -p1 -s < $pf) || { echo "PATCH FAILED"; rm -rf $d; exit 3; }
 res=""
